@@ -3,10 +3,10 @@
    parameters (n, t, V; p = the field of the model witness) and the ENVIRONMENT's moves -- which node starts when
    (with the model polynomials it picks: a witness that only the trace spec uses, the real node draws its own), which
    batch the transport delivers when, and when a node that holds all inputs of a round gets its transport call
-   answered.  What the nodes compute is the implementation's business.  Printed when every node has its result.
+   answered, and (MaxRedel > 0) which already delivered batch the transport delivers AGAIN.  What the nodes compute is the implementation's business.  Printed when every node has its result.
    Run with -simulate (the polynomials are drawn with RandomElement). *)
 EXTENDS Frost, Json
-CONSTANTS GenP, MinN, MaxN, MaxV
+CONSTANTS GenP, MinN, MaxN, MaxV, MaxRedel
 VARIABLE hist
 GenInit == \E n \in MinN..MaxN, nv \in 1..MaxV : \E t \in 2..n :
              /\ InitWith(n, t, nv, GenP)
@@ -18,6 +18,8 @@ GenNext ==
   \/ \E i, j \in Nodes : Deliver1C(i, j) /\ hist' = Append(hist, [ev |-> "D1C", i |-> i, j |-> j])
   \/ \E i, j \in Nodes : Deliver1P(i, j) /\ hist' = Append(hist, [ev |-> "D1P", i |-> i, j |-> j])
   \/ \E i, j \in Nodes : Deliver2(i, j) /\ hist' = Append(hist, [ev |-> "D2", i |-> i, j |-> j])
+  \/ (redel < MaxRedel /\ \E i, j \in Nodes : \E k \in Kinds :
+        Redeliver(i, j, k) /\ hist' = Append(hist, [ev |-> "RD", i |-> i, j |-> j, k |-> k]))
   \/ \E j \in Nodes : Ret1(j) /\ hist' = Append(hist, [ev |-> "Ret1", j |-> j])
   \/ \E j \in Nodes : Ret2(j) /\ hist' = Append(hist, [ev |-> "Ret2", j |-> j])
 GenSpec == GenInit /\ [][GenNext]_<<vars, hist>>
